@@ -35,13 +35,16 @@ Proof. repeat split; reflexivity. Qed.
    files by [sf_atime] — the file's ACCESS time and nothing else — with [<=] ([insert_by]), and adds
    them first to last, unlinking what Add refuses.  These are the statements of load.go that say the
    same: the only assignment to the sort key in scanDir, the comparison and the swap of the sort,
-   the sort call, and the Add loop.  Any edit of them (e.g. taking the modification time into
+   the sort call, the Add loop, and
+   getElementPath's result (FileLocation of the entry's own fields: [item_place]).  Any edit of them (e.g. taking the modification time into
    account) breaks this lemma even if no generated directory distinguishes the two. *)
 Lemma scanDir_sort_key_pinned :
   Gen.Names.scanDir_ts_assign = ["metadata[n].ts = atime.Get(info)"] /\
   Gen.Names.scanResult_Less_body = "{ return r.metadata[i].ts.Before(r.metadata[j].ts) }" /\
   Gen.Names.scanResult_Swap_body =
     "{ r.item[i], r.item[j] = r.item[j], r.item[i] r.metadata[i], r.metadata[j] = r.metadata[j], r.metadata[i] }" /\
+  Gen.Names.getElementPath_return =
+    ["return filepath.Join(c.dir, c.FileLocation(kind, value.legacy, hash, value.size, value.random))"] /\
   Gen.Names.loadExistingFiles_sort = ["sort.Sort(result)"] /\
   Gen.Names.loadExistingFiles_add_loop =
     ["for i := 0; i < len(result.item); i++ { ok := c.lru.Add(result.metadata[i].lookupKey, *result.item[i]) if !ok { err = os.Remove(c.getElementPath(result.metadata[i].lookupKey, *result.item[i])) if err != nil { return err } } }"].
